@@ -84,6 +84,33 @@ def safe(s):
     return re.sub(r'[^A-Za-z0-9_.@-]+', '_', s)[:150]
 
 
+_CACHE_LOCKS = {}
+
+
+def _cached(kind, unit, seed, fn):
+    """The result of verifying one unit against one tree does not depend on the property asked about (the property only selects which
+    obligations count).  tools/seed_recheck.py asks all properties about the same patched tree, so it sets VERIF_UNIT_CACHE to a
+    per-tree directory and every unit is verified once.  Never set for the registered commands."""
+    d = os.environ.get('VERIF_UNIT_CACHE')
+    if not d:
+        return fn()
+    import fcntl
+    import pickle
+    os.makedirs(d, exist_ok=True)
+    path = os.path.join(d, '%s-%s-%s.pkl' % (kind, os.path.basename(unit), seed or 0))
+    with open(path + '.lock', 'w') as lk:
+        fcntl.flock(lk, fcntl.LOCK_EX)       # another property's check may be computing the same unit right now
+        if os.path.exists(path):
+            return pickle.load(open(path, 'rb'))
+        r = fn()
+        try:
+            pickle.dump(r, open(path + '.tmp', 'wb'))
+            os.replace(path + '.tmp', path)
+        except Exception:
+            pass
+        return r
+
+
 def decide(prop, tier='quick', seed=0, units=None, jobs=8, quiet=False):
     t0 = time.time()
     units = units or units_for(prop)
@@ -94,8 +121,8 @@ def decide(prop, tier='quick', seed=0, units=None, jobs=8, quiet=False):
     with cf.ThreadPoolExecutor(max_workers=jobs) as ex:
         os.makedirs(os.path.join(ROOT, 'gen'), exist_ok=True)
         gen_dir = tempfile.mkdtemp(prefix='%s-%s-' % (prop, tier), dir=os.path.join(ROOT, 'gen'))
-        futs = [ex.submit(R.run_unit, u, gen_dir, None, seed or None) for u in units]
-        rfuts = [ex.submit(R.run_reach, u, gen_dir) for u in units]
+        futs = [ex.submit(_cached, 'unit', u, seed, lambda u=u: R.run_unit(u, gen_dir, None, seed or None)) for u in units]
+        rfuts = [ex.submit(_cached, 'reach', u, seed, lambda u=u: R.run_reach(u, gen_dir)) for u in units]
         for f in futs:
             results.append(f.result())
         reach = [f.result() for f in rfuts]
@@ -198,7 +225,7 @@ def decide(prop, tier='quick', seed=0, units=None, jobs=8, quiet=False):
                        passed_on_unchanged_tree=('yes: this is a named contract clause / marker; every named obligation is discharged on the unchanged tree (checked by every run there)'
                                                  if (fl.kind in ('post', 'inv') or '@ghost' in fl.oid or '.pre[' in fl.oid) else
                                                  'a generated safety obligation at this source location; all safety obligations of this function are discharged on the unchanged tree'))
-        ce = try_counterexample(prop, fl)
+        ce = None if os.environ.get('VERIF_NO_KANI') else try_counterexample(prop, fl)
         suffix = ''
         if ce:
             payload['failing_input'] = ce
